@@ -25,6 +25,9 @@ H4V_DECL_ND(unsigned);
 H4V_DECL_ND(h4v_long);
 H4V_DECL_ND(h4v_ulong);
 
+/* defined in error.c, which is not part of the unit */
+const char *cdf_routine_name;
+
 /* ------------------------------------------------------------------ trusted stubs */
 void NCadvise(int err, const char *fmt, ...) {}
 void nc_serror(const char *fmt, ...) {}
@@ -174,6 +177,10 @@ int32 hdf_get_vp_aid(NC *handle, NC_var *vp)
      ((vp)->szof == 1 || (vp)->szof == 2 || (vp)->szof == 4 || (vp)->szof == 8) &&                   \
      (vp)->len >= 1 && (vp)->len <= 0x7fffffffUL && ((vp)->aid == FAIL || (vp)->aid == g_aid))
 #define CK_MAX(a, b) ((a) > (b) ? (a) : (b))
+/* the call has to write fill records: there FALSE may also mean an allocation or I/O failure
+   (an allocation failure inside the real code is not observable by the stubs) */
+#define CK_FILLPATH(handle, vp, coords, old_nr, old_flags)                                           \
+    (C03_REC(vp) && (handle)->xdrs->x_op == XDR_ENCODE && (coords)[0] >= (old_nr) && ((old_flags)&NC_NOFILL) == 0)
 
 bool_t H4_NCcoordck(NC *handle, NC_var *vp, const long *coords)
     __CPROVER_requires(handle != NULL && vp != NULL && coords != NULL && CK_ENV(handle, vp))
@@ -199,7 +206,8 @@ bool_t H4_NCcoordck(NC *handle, NC_var *vp, const long *coords)
            g_anybad is the harness-computed disjunction of (1)-(3) over ALL dimensions; an existential
            conclusion cannot be carried through a loop contract, so this clause is checked only in
            the unwound run (obligation NCcoordck_verdict, g_chk_verdict == 1) */
-    __CPROVER_ensures((g_chk_verdict && __CPROVER_return_value == FALSE && !g_iofail) ==> g_anybad)
+    __CPROVER_ensures((g_chk_verdict && __CPROVER_return_value == FALSE && !g_iofail &&
+                       !CK_FILLPATH(handle, vp, coords, __CPROVER_old(vp->numrecs), __CPROVER_old(handle->flags))) ==> g_anybad)
     /* (5) an invalid request, a fixed-size variable, or an existing record: no state change, no I/O */
     __CPROVER_ensures(((C03_FIXED(vp, g_d) && C03_OUTSIDE(vp, coords, g_d)) || coords[0] < 0 || !C03_REC(vp) ||
                        coords[0] < __CPROVER_old(vp->numrecs) || handle->xdrs->x_op != XDR_ENCODE) ==>
@@ -209,10 +217,12 @@ bool_t H4_NCcoordck(NC *handle, NC_var *vp, const long *coords)
     __CPROVER_ensures(__CPROVER_return_value == FALSE ==>
                       ((long)vp->numrecs == (long)__CPROVER_old(vp->numrecs) + (long)g_hw_ok &&
                        handle->numrecs == __CPROVER_old(handle->numrecs)))
-    /* (7) success on a record variable: numrecs' == max(numrecs, index + 1), file-wide too */
+    /* (7) success on a record variable: numrecs' == max(numrecs, index + 1); when the variable
+           grows the file-wide count follows: handle->numrecs' == max(handle->numrecs, index + 1) */
     __CPROVER_ensures((__CPROVER_return_value == TRUE && C03_REC(vp)) ==>
-                      ((long)vp->numrecs == CK_MAX((long)__CPROVER_old(vp->numrecs), coords[0] + 1) &&
-                       (long)handle->numrecs == CK_MAX((long)__CPROVER_old(handle->numrecs), coords[0] + 1)))
+                      (long)vp->numrecs == CK_MAX((long)__CPROVER_old(vp->numrecs), coords[0] + 1))
+    __CPROVER_ensures((__CPROVER_return_value == TRUE && C03_REC(vp) && coords[0] >= __CPROVER_old(vp->numrecs)) ==>
+                      (long)handle->numrecs == CK_MAX((long)__CPROVER_old(handle->numrecs), coords[0] + 1))
     /* (8) growth on the write path: records numrecs..index are filled (index - numrecs + 1 fill
            records, written from byte numrecs * reclen on) unless NC_NOFILL, in which case none */
     __CPROVER_ensures((__CPROVER_return_value == TRUE && C03_REC(vp) && coords[0] >= __CPROVER_old(vp->numrecs)) ==>
@@ -222,7 +232,7 @@ bool_t H4_NCcoordck(NC *handle, NC_var *vp, const long *coords)
                             : ((long)g_hw_n == coords[0] - __CPROVER_old(vp->numrecs) + 1 && g_hw_ok == g_hw_n &&
                                g_seek_n == 1))))
     /* (9) NC_NDIRTY is raised exactly when the file-wide record count grew; no other flag moves */
-    __CPROVER_ensures((__CPROVER_return_value == TRUE && C03_REC(vp)) ==>
+    __CPROVER_ensures((__CPROVER_return_value == TRUE && C03_REC(vp) && coords[0] >= __CPROVER_old(vp->numrecs)) ==>
                       handle->flags == ((coords[0] + 1 > (long)__CPROVER_old(handle->numrecs))
                                             ? (__CPROVER_old(handle->flags) | NC_NDIRTY)
                                             : __CPROVER_old(handle->flags)));
@@ -317,8 +327,10 @@ static long *e_co;
    (obligation *_strictptr shows it).  Assumption A-GUARD: every vector is preceded by one guard
    element.  The guard holds an arbitrary value and no assigns clause covers it, so a result that
    depends on it or a write to it still fails the contract. */
+/* counterexample mode concretises vectors element-wise: keep them short (rank <= 4) */
+#define C03_CAP 5
 #if defined(C03_STRICT_PTR)
-#define C03_VEC(T, p, n) H4V_ND_BUF(T, p, n, 33)
+#define C03_VEC(T, p, n) H4V_ND_BUF(T, p, n, C03_CAP)
 #elif defined(C03_FIXVEC) && defined(H4V_CBMC) && !defined(H4V_CEX)
 /* full-rank runs: vectors of constant size MAXR (+ guard) with arbitrary contents -- heap vectors
    of symbolic size exhaust the solver at rank 32.  Accesses between rank and MAXR are then not
@@ -328,7 +340,7 @@ static long *e_co;
     T *p = p##_g + 1
 #else
 #define C03_VEC(T, p, n)                                                                             \
-    H4V_ND_BUF(T, p##_g, (n) + 1, 33);                                                               \
+    H4V_ND_BUF(T, p##_g, (n) + 1, C03_CAP);                                                               \
     T *p = p##_g + 1
 #endif
 
@@ -340,6 +352,9 @@ mk_env(void)
     g_hw_n = g_hw_ok = g_seek_n = g_seek_off = g_iofail = g_anybad = 0;
     H4V_ND(int, rank);
     H4V_ASSUME(rank >= 1 && rank <= MAXR);
+#ifdef H4V_CEX
+    H4V_ASSUME(rank <= 4);
+#endif
     /* structs are statics (arbitrary contents under dfcc; every field used is set below): heap
        structs make every field access a byte-level update in cbmc.  The arrays are heap objects
        of exactly `rank` elements so that any access beyond the rank is a bounds violation. */
@@ -476,22 +491,44 @@ h_NCcoordck_verdict(void)
 /* a second coordinate vector / an edge vector of the same rank */
 static long *e_co2;
 
+/* geometry as NC_var_shape compiles it, small extents, in-range coordinates */
+static void
+vo_env(void)
+{
+    mk_env();
+    NC_var *vp = g_vp;
+    H4V_ASSUME((int)vp->assoc->count <= 3);
+    H4V_ASSUME(VO_SMALL(vp));
+#ifdef C03_W /* one obligation per element size: keeps one factor of every product constant */
+    H4V_ASSUME(vp->HDFsize == C03_W);
+#else
+    H4V_ASSUME(vp->HDFsize == 1 || vp->HDFsize == 2 || vp->HDFsize == 4 || vp->HDFsize == 8);
+#endif
+    H4V_ASSUME(C03_DSIZES_RM3(vp, vp->HDFsize));
+    H4V_ASSUME(VO_INRANGE(vp, e_co));
+}
+
 void
 h_NC_varoffset(void)
 {
-    mk_env();
-    NC     *h  = e_h;
+    vo_env();
+    unsigned long o1 = NC_varoffset(e_h, g_vp, e_co);
+    H4V_COVER(o1 > 0 && (int)g_vp->assoc->count == 3 && C03_REC(g_vp), "varoffset rank 3 record variable");
+    H4V_COVER(o1 > 0 && (int)g_vp->assoc->count == 2 && !C03_REC(g_vp), "varoffset rank 2 fixed");
+    H4V_CANARY("NC_varoffset end");
+}
+
+/* injectivity (two ghost coordinate tuples): harness-level assertions, no contract enforced */
+void
+h_NC_varoffset_inj(void)
+{
+    vo_env();
     NC_var *vp = g_vp;
     int     rk = (int)vp->assoc->count;
-    H4V_ASSUME(rk <= 3);
     C03_VEC(h4v_long, coords2, rk);
-    /* geometry as NC_var_shape compiles it */
-    H4V_ASSUME(VO_SMALL(vp));
-    H4V_ASSUME(vp->HDFsize == 1 || vp->HDFsize == 2 || vp->HDFsize == 4 || vp->HDFsize == 8);
-    H4V_ASSUME(C03_DSIZES_RM3(vp, vp->HDFsize));
-    H4V_ASSUME(VO_INRANGE(vp, e_co) && VO_INRANGE(vp, coords2));
-    unsigned long o1 = NC_varoffset(h, vp, e_co);
-    unsigned long o2 = NC_varoffset(h, vp, coords2);
+    H4V_ASSUME(VO_INRANGE(vp, coords2));
+    unsigned long o1   = NC_varoffset(e_h, vp, e_co);
+    unsigned long o2   = NC_varoffset(e_h, vp, coords2);
     int           same = 1;
     for (int i = 0; i < rk; i++)
         if (e_co[i] != coords2[i])
@@ -500,9 +537,9 @@ h_NC_varoffset(void)
     H4V_CHECK(same || o1 + (unsigned long)vp->HDFsize <= o2 || o2 + (unsigned long)vp->HDFsize <= o1,
               "distinct coordinates give disjoint elements");
     H4V_CHECK(!same || o1 == o2, "equal coordinates give equal offsets");
-    H4V_COVER(!same && rk == 3 && C03_REC(vp), "varoffset rank 3 record variable");
-    H4V_COVER(!same && rk == 2 && !C03_REC(vp), "varoffset rank 2 fixed");
-    H4V_CANARY("NC_varoffset end");
+    H4V_COVER(!same && rk == 3 && C03_REC(vp), "varoffset_inj rank 3 record variable");
+    H4V_COVER(!same && rk == 2 && !C03_REC(vp), "varoffset_inj rank 2 fixed");
+    H4V_CANARY("NC_varoffset_inj end");
 }
 
 void
